@@ -289,6 +289,16 @@ def r16_3(ctx, b, m):
                 return False
             ctx.check(strip_all(ct[2][0]) == st and is_tolerance(ct[2][1]), R, key + '|%s flattened args' % v, call_line(b, bi),
                       'flattened(segment, tolerance)', 'flattened() is called as %s, expected (the segment built from the op, the tolerance parameter — at most clamped from below by a constant <= 1.2e-7)' % fmt(b, ct))
+            # nothing between flattened() and the pushes may drop points
+            DROPPING = ('Iterator::take', 'Iterator::skip', 'Iterator::step_by', 'Iterator::filter', 'Iterator::filter_map', 'Iterator::take_while',
+                        'Iterator::skip_while', 'Iterator::nth', 'Iterator::last', 'Iterator::find', 'Iterator::advance_by', 'Iterator::map_while')
+            for abi, ad, act in calls_in(ctx, b, region):
+                if ad and any(ad.endswith(x) for x in DROPPING) and act[2]:
+                    DD = Deps(an)
+                    DD.closure(act[2][0])
+                    if any(is_call(x, '::flattened') for x in list(DD.visited) + [strip_all(act[2][0])] for x in [x] if isinstance(x, tuple)) or any(is_call(y, '::flattened') for y in subterms(act[2][0])):
+                        ctx.fail(R, key + '|%s flattened points dropped' % v, call_line(b, abi),
+                                 'the points of the flattened %s pass through %s before they are pushed: points of the curve are dropped, the polyline leaves the curve by more than the tolerance where they are missing' % (v, ad.split('::')[-1]))
             # pushes in the arm: LineTo{0: payload of next() on the iterator of flattened}
             def from_next(pct):
                 pv0 = strip_all(pct[2][1])
